@@ -45,7 +45,7 @@ func (f *OrefaFile) Chdir() error {
 		return &fs.PathError{Op: op, Path: f.name, Err: fs.ErrClosed}
 	}
 
-	if !f.nd.mode.IsDir() {
+	if !f.nd.dir {
 		err := error(avfs.ErrNotADirectory)
 		if f.vfs.OSType() == avfs.OsWindows {
 			err = avfs.ErrWinDirNameInvalid
@@ -193,7 +193,7 @@ func (f *OrefaFile) Read(b []byte) (n int, err error) {
 	}
 
 	nd := f.nd
-	if nd.mode.IsDir() {
+	if nd.dir {
 		err = avfs.ErrIsADirectory
 		if f.vfs.OSType() == avfs.OsWindows {
 			err = avfs.ErrWinIncorrectFunc
@@ -254,7 +254,7 @@ func (f *OrefaFile) ReadAt(b []byte, off int64) (n int, err error) {
 	}
 
 	nd := f.nd
-	if nd.mode.IsDir() {
+	if nd.dir {
 		err = avfs.ErrIsADirectory
 		if f.vfs.OSType() == avfs.OsWindows {
 			err = avfs.ErrWinIncorrectFunc
@@ -319,7 +319,7 @@ func (f *OrefaFile) ReadDir(n int) ([]fs.DirEntry, error) {
 	}
 
 	nd := f.nd
-	if !nd.mode.IsDir() {
+	if !nd.dir {
 		return nil, &fs.PathError{Op: op, Path: f.name, Err: f.vfs.err.NotADirectory}
 	}
 
@@ -397,7 +397,7 @@ func (f *OrefaFile) Readdirnames(n int) (names []string, err error) {
 	}
 
 	nd := f.nd
-	if !nd.mode.IsDir() {
+	if !nd.dir {
 		return nil, &fs.PathError{Op: op, Path: f.name, Err: f.vfs.err.NotADirectory}
 	}
 
@@ -460,7 +460,7 @@ func (f *OrefaFile) Seek(offset int64, whence int) (ret int64, err error) {
 	}
 
 	nd := f.nd
-	if nd.mode.IsDir() {
+	if nd.dir {
 		return 0, nil
 	}
 
@@ -578,7 +578,7 @@ func (f *OrefaFile) Truncate(size int64) error {
 	}
 
 	nd := f.nd
-	if nd.mode.IsDir() {
+	if nd.dir {
 		err := error(avfs.ErrInvalidArgument)
 		if f.vfs.OSType() == avfs.OsWindows {
 			err = avfs.ErrWinAccessDenied
@@ -632,7 +632,7 @@ func (f *OrefaFile) Write(b []byte) (n int, err error) {
 	}
 
 	nd := f.nd
-	if nd.mode.IsDir() {
+	if nd.dir {
 		err = avfs.ErrBadFileDesc
 		if f.vfs.OSType() == avfs.OsWindows {
 			err = avfs.ErrWinAccessDenied
@@ -719,7 +719,7 @@ func (f *OrefaFile) WriteAt(b []byte, off int64) (n int, err error) {
 	}
 
 	nd := f.nd
-	if nd.mode.IsDir() {
+	if nd.dir {
 		err = avfs.ErrBadFileDesc
 		if f.vfs.OSType() == avfs.OsWindows {
 			err = avfs.ErrWinAccessDenied
